@@ -42,7 +42,8 @@ impl<T: Copy> Block for VecToStream<T> {
         };
         let mut o = self.dst.write_buf()?;
         if n > o.len() {
-            return Ok(BlockRet::WaitForStream(&self.src, n));
+            // It's room in the output that's missing, not input.
+            return Ok(BlockRet::WaitForStream(&self.dst, n));
         }
         let (v, mut tags) = self
             .src
